@@ -44,14 +44,26 @@ func vpHistLen() int { return 2 + vpTier() }
 
 // VP_C01_History: every history of up to 2 (quick) / 3 (thorough) operations over two users and
 // two arbitrary passwords on a fresh store, then every observation the property names.
-func VP_C01_History() {
+func VP_C01_History() { vpHistoryOver([]string{"a", "b.c"}, vpHistLen()) }
+
+// VP_C01_NeighbouringNames: the same histories over pairs of users whose names are related the way
+// file names are: one is the other plus a dot and a suffix, or plus something that looks like a
+// hash-file extension. Each user's verdicts follow that user's own history only.
+func VP_C01_NeighbouringNames() {
+	pairs := [][]string{{"bob", "bob.smith"}, {"u", "u.user"}, {"u.admin", "u"}, {"ann.x", "ann"}}
+	vpHistoryOver(pairs[vpChoose("name-pair", 2+2*vpTier())], 2)
+}
+
+func vpHistoryOver(users []string, n int) {
 	base := vpMkStoreDir()
 	def := uint(1 + vpChoose("default-set", 2))
 	d := vpNewDir(base, def)
-	users := []string{"a", "b.c"}
-	pws := []string{vpStr("pw0", vpPwLen("pw0len")), vpStr("pw1", 2)}
+	pw0len := 3
+	if users[0] == "a" {
+		pw0len = vpPwLen("pw0len")
+	}
+	pws := []string{vpStr("pw0", pw0len), vpStr("pw1", 2)}
 	model := map[string]*vpRec{}
-	n := vpHistLen()
 	for step := 0; step < n; step++ {
 		u := users[vpChoose("user", 2)]
 		switch vpChoose("op", 4) {
